@@ -116,7 +116,7 @@ def check(spec, stats=None):
 @st.composite
 def strategy(draw):
     r = draw(run_spec(families=ALL_FAMILIES, n_max=8, jac_modes=("callable", "callable", "callable", None, "2-point", "3-point"), maxiter=(0, 30), maxfun=(1, 150), units=True, ftols=(0.0, 1e-12, 1e-5, 1e-2), gtols=(1e-8, 1e-5, 1e-3),
-                      with_ftarget=True, with_callback_stop=True, gtol_callable=True))
+                      with_ftarget=True, with_callback_stop=True, gtol_callable=True, extras=True))
     k = draw(st.sampled_from(["const", "const", "pow2", "unit"]))
     if r["jac"] != "callable":
         # with a differenced gradient the two runs are bit-identical only when multiplying by s is exact
